@@ -8,6 +8,7 @@ if ! git apply "$P" 2>/dev/null; then
   git apply -3 "$P" 2>&1 | tail -2
   if git diff --name-only --diff-filter=U | grep -q .; then echo "PATCH DOES NOT APPLY CLEANLY"; rm -rf $T; exit 3; fi
 fi
+git diff --quiet && { echo "PATCH NOT APPLIED (no change in the scratch tree)"; echo "rc=3"; cd /; rm -rf $T; exit 3; }
 git diff --stat | tail -1
 cd /verif && VERIF_EVIDENCE_DIR=/tmp/evscratch VERIF_REPO=$T VERIF_WORKTAG=.seed$$ timeout ${MUT_TIMEOUT:-1200} ./check $ID $TIER 2>&1 | grep -v "^KNOWN-FINDING" | head -${LINES_MAX:-8}
 echo "rc=${PIPESTATUS[0]}"
